@@ -46,7 +46,9 @@ fn main() {
     let path = &args[1];
     let fault_path = &args[2];
     let marker = args.get(3).cloned();
-    std::panic::set_hook(Box::new(|_| {}));
+    if std::env::var_os("MM_VERBOSE").is_none() {
+        std::panic::set_hook(Box::new(|_| {}));
+    }
     let f = std::fs::File::open(path).expect("cases file");
     let out = std::io::stdout();
     let mut out = std::io::BufWriter::new(out.lock());
